@@ -923,12 +923,15 @@ void bn_rec_sac(int8_t *b, size_t *len, const bn_t *k, const bn_t u, size_t c,
 		}
 
 		l = RLC_MAX(l, bn_bits(u) + 1);
+		if (cof) {
+			/* The sub-scalars for the BN basis are bounded by 8|u| + 3, that is
+			 * bn_bits(u) + 3 bits. Use that public bound instead of the bit
+			 * length of the (secret) sub-scalars, so that the length of the
+			 * recoding does not depend on their value. */
+			l = RLC_MAX(l, bn_bits(u) + 4);
+		}
 		for (size_t i = 0; i < m; i++) {
 			bn_copy(t[i], k[i]);
-			/* The current basis for some curves might be one bit longer. */
-			if (cof) {
-				l = RLC_MAX(l, bn_bits(t[i]) + 1);
-			}
 		}
 
 		memset(b, 0, *len);
